@@ -10,6 +10,7 @@ type Scenario struct {
 	Name   string
 	Run    func(k *K)
 	Weight int // share of the property's runs given to this scenario
+	Rule   string // how cases are generated and what makes one non-trivial (evidence text)
 	// Enumerated scenarios take their case index from the seed instead of sampling.
 	Cases func() int
 }
